@@ -202,6 +202,14 @@ def check_C06(chk):
     nd, n = emit(chk, "c06_emit", consts(MaxFrames="= 0", Classes="<- ClsSeg", Verifies="<- GateOn", MaxPending="= 1",
                                          MaxWrites="= 2", WLens="<- W8", EmWacc="<- S13", FrameOK="<- FrameReal"))
     replay(chk, nd, chk.seed)
+    # the connection's own frames count too: a user write issued after a cancelled read must not cut into a half-written
+    # keep-alive reply (everything that leaves is a sequence of whole frames: OutContig)
+    mc(chk, "c06_cancel_write", consts(MaxFrames="= 1", Classes="<- ClsKa", Flavors="<- OnlyTokio", Verifies="<- GateOn", MaxPending="= 1",
+                                       MaxCancel="= 1", MaxWrites="= 1", WLens="<- W8"), needs=("Cancel", "WriteCall"))
+    nd, n = emit(chk, "c06_emit_cw", consts(MaxFrames="= 1", Classes="<- ClsKa", Flavors="<- OnlyTokio", Verifies="<- GateOn", MaxPending="= 1",
+                                            MaxCancel="= 1", MaxWrites="= 1", WLens="<- W8", FrameOK="<- FrameReal", EmSmallFills="= 0",
+                                            EmPong="<- S13", EmWacc="<- S1"))
+    replay(chk, nd, chk.seed + 1)
     for i in range(4 if thorough else 1):
         p, info = gen_trace(f"c06_trace{i}", chk.seed * 100 + i, sessions=8, frames=80, writes=True, extra=["--noka", "1"])
         if i == 0:
